@@ -49,6 +49,10 @@ type vhtunConn struct {
 	// PauseMs (mode half): the reading end stops after its first KiB for this long - the writer has long closed by then - and
 	// only then reads on to the end of the stream
 	PauseMs int `json:"pause_ms"`
+	// LingerMs (mode half, closer client): the upstream end does NOT close when it sees end-of-stream - it keeps writing a byte
+	// every 10 ms, like a publisher that never reads. The tunnel is gone (the client closed it), so within this time a write
+	// has to fail: the leg to the service was released, not merely half-closed
+	LingerMs int `json:"linger_ms"`
 }
 
 type vhtunScenario struct {
@@ -77,6 +81,8 @@ type vhtunConnOut struct {
 	EOFSeen   bool   `json:"eof_seen"`   // the end that did not close observed end-of-stream
 	EOFClass  string `json:"eof_class"`
 	EOFMillis int64  `json:"eof_ms"`
+	LingerMs     int64 `json:"linger_ms"`      // how long the lingering upstream end could still write after the end-of-stream
+	LingerClosed bool  `json:"linger_closed"`  // a write failed within the bound
 }
 
 type vhtunScenarioOut struct {
@@ -487,6 +493,18 @@ func vhtunRunConn(env *vhtunEnv, spec vhtunConn) (out vhtunConnOut) {
 		out.EOFClass = vhtunEOFClass(rerr)
 		out.EOFSeen = out.EOFClass == "eof" || out.EOFClass == "closed"
 		out.EOFMillis = time.Since(start).Milliseconds()
+		if spec.LingerMs > 0 && spec.Closer != "upstream" && out.EOFSeen {
+			t1 := time.Now()
+			for time.Since(t1) < time.Duration(spec.LingerMs)*time.Millisecond {
+				_ = otherConn.SetWriteDeadline(time.Now().Add(200 * time.Millisecond))
+				if _, err := otherConn.Write([]byte{0x55}); err != nil {
+					out.LingerClosed = true
+					break
+				}
+				time.Sleep(10 * time.Millisecond)
+			}
+			out.LingerMs = time.Since(t1).Milliseconds()
+		}
 		zmu.Lock()
 		out.ZeroReads = zero
 		zmu.Unlock()
